@@ -68,6 +68,17 @@ def judge(case, real, extra, cache):
             out.append(("close() of the iterable not called exactly once", "1", real["closes"], None))
     elif real["closes"] != "0":
         out.append(("close() called without an iterable", "0", real["closes"], None))
+    # a partially received next request waits for "100 Continue": once the connection is marked for closing
+    # (application failure, Connection: close, ...) NOTHING more may be written, no interim response either
+    if case.get("pending_continue"):
+        from lib.vcommon import unhexb
+        flushed = unhexb(extra["flushed_by_service"]) if extra.get("flushed_by_service") else b""
+        if real["close"] == "1" and (extra.get("sent_continue") or flushed not in (b"", wire)):
+            out.append(("bytes written after the close decision: a deferred '100 Continue' was sent to the next request",
+                        "nothing after the response", repr(flushed[-40:]), None))
+        if real["close"] != "1" and real["esc"] == "none" and flushed not in (b"", wire, wire + b"HTTP/1.1 100 Continue\r\n\r\n"):
+            out.append(("bytes on the wire that are neither the response nor the deferred 100 Continue", "response [+ 100 Continue]",
+                        repr(flushed[-60:]), None))
     # a file wrapper is never handed over after a 1xx/204/304 status (fix d117733): the task iterates it
     # (write() drops every block) and closes it itself -- covered by the close-once test above once
     # hand-over is excluded
